@@ -72,7 +72,8 @@
          C07_s_clear_lawful, C07_s_retain_lawful.
      "membership afterwards is exactly the successful insertions not yet removed"
         is the definition of fstep (s ++ [k] on a successful insert, f_del on remove/take, filter on
-        retain, [] on clear) transported by C07_srun_refines_state(_new) + C07_sabs_mem.
+        retain, [] on clear) transported by C07_srun_refines_state(_new) + C07_sabs_mem;
+        as a theorem about traces: C07_fsfinal2_mem_new, C07_srun2_membership (end of this file).
      drain                                                 C07_sdrain_refines
         (the set is the empty set at once; the range handed to the Drain iterator holds exactly
          the previous elements; what iterating / dropping the Drain does is Props/C10.v).
@@ -86,7 +87,8 @@
 
    PARTLY COVERED / NOT COVERED BY A THEOREM HERE
      - drain is not a constructor of [sop]: it is specified separately (C07_sdrain_refines) and
-       not interleaved inside the histories of C07_srun_refines.
+       not interleaved inside the histories of C07_srun_refines.  CLOSED at the end of this file:
+       [sop2] adds S2Drain and C07_srun2_refines covers histories with drain anywhere.
      - SoRetain takes a pure, non-panicking predicate g : K -> bool; SoExtend's source iterator
        never panics (panicking closures / sources: C04); everything assumes [Lawful E ck cq]
        (unlawful ==: only safety, C17).
@@ -480,3 +482,327 @@ Example C07_example_vstep :
   u2 vw = [6]%N /\ u3 vw = [6]%N /\
   view_x (run_final false {| sc_adv := false; sc_seed := 0; sc_fk := 0; sc_fa := 0 |} ops (init_world 0 0 3 3)) = vw.
 Proof. vm_compute. repeat split; reflexivity. Qed.
+
+(* ========================================================================== *)
+(* AUDIT CLOSURE (Proofs/MoreSet.v)
+
+   1. DRAIN INTERLEAVED IN THE HISTORIES.  "For any sequence of Set operations (insert, replace,
+      contains, get, remove, take, retain, clear, drain, extend)".
+        sop2             := S2Base o (the nine operations of [sop]) | S2Drain take
+                            (call drain(), take [take] items from the Drain, drop it: any number of
+                            items, the rest is dropped).
+        sres2            := R2Base r | R2Drained l (the elements the Drain yielded, in order).
+        sstep2 E debug o the model of the crate's code (C07_sstep2_unfold shows it: S2Drain is
+                            Map::drain at V = (), IterSpec.drain_run = next() [take] times, drain_drop).
+        fnext2 / fstep2  THE SPECIFICATION: the next state of the ideal set is a function
+                            (snd fstep, or [] after drain); the result is a relation because the order in
+                            which drain yields is unspecified: R2Drained (firstn take p) for SOME
+                            permutation p of the set (C07_fstep2_unfold).
+        smrun2/smfinal2/fsfinal2/fsruns2   histories, as smrun/smfinal/fsfinal; fsruns2 n ops s rs =
+                            "rs is a result list the ideal set allows for ops from s".
+      C07_sstep2_refines        one call, drain included (drain never panics: the Panic clause
+                                demands an R2Base SPanic result, which fstep2 refuses for S2Drain)
+      C07_srun2_refines(_new)   any history, drain anywhere in it; no UB, results allowed by the ideal
+                                set, final container represents the ideal set's final state
+      C07_fsruns2_base, C07_fsfinal2_base   without drain this is C07_srun_refines' specification.
+
+   2. "membership afterwards is exactly the successful insertions not yet removed", AS A THEOREM
+      ABOUT TRACES (no reading of fstep needed).
+        stores n o s k   operation o, run on the ideal set s, SUCCEEDS in putting element k into
+                         the set: insert k returned true; replace k did not panic; extend reached
+                         item k without overflow and its insertion returned true (C07_stores_unfold).
+        removes n o s c  operation o, run on s, takes the element of class c out: remove/take with
+                         a query of class c; retain whose predicate rejects the stored element of
+                         class c; clear; drain (removes2); replace k with k of class c (the stored
+                         element is displaced and handed back; [stores] holds for the new one)
+                         (C07_removes_unfold, C07_stores2_removes2_unfold).
+        noremove n c ops s   no operation of ops, run in sequence from s, removes class c
+                         (C07_noremove_unfold).
+        fnd s            NoDup (map ck s): what every reachable ideal set satisfies (C07_fsfinal2_fnd).
+      C07_fstep_mem            ONE step: k is the member of class c afterwards iff the step stored it
+                               or it was the member before and the step did not remove it
+      C07_fsfinal2_mem         any history from any duplicate-free s
+      C07_fsfinal2_mem_new     from the empty set: f_mem (final) c = Some k  <->  the history splits
+                               as pre ++ o :: post with o storing k (class c) and nothing in post
+                               removing class c.  "ops = pre ++ o :: post" is "o is the i-th operation,
+                               i = length pre"; "noremove .. post .." is "for all j > i".
+      C07_fsfinal2_member_new  the same for "class c is a member"
+      C07_srun2_membership(_from)   THE MODEL: what a lookup in the final container of the model run
+                               finds (for every class c, not only classes of queries) is characterised
+                               by the same trace condition.
+
+   3. C07_srun_refines_state_new was already restated above.                                     *)
+(* ========================================================================== *)
+Require Import Proofs.MoreSet.
+
+Theorem C07_sstep2_unfold :
+  forall (K Q T : Type) (E : env K unit Q T) (debug : bool),
+    (forall o : @sop K Q, sstep2 E debug (S2Base o) = (r <- sstep E debug o ;; ret (R2Base r))) /\
+    (forall take : nat,
+        sstep2 E debug (S2Drain take) =
+        (c <- drain ;; x <- IterSpec.drain_run take c ;; drain_drop E (snd x) ;;
+         ret (R2Drained (List.map fst (fst x))))).
+Proof. exact (@sstep2_unfold). Qed.
+Print Assumptions C07_sstep2_unfold.
+
+Theorem C07_fstep2_unfold :
+  forall (K Q : Type) (ck : K -> N) (cq : Q -> N) (n : nat) (s : @fset K) (r : @sres2 K),
+    (forall o : @sop K Q, fstep2 ck cq n (S2Base o) s r <-> r = R2Base (fst (fstep ck cq n o s))) /\
+    (forall take : nat,
+        fstep2 ck cq n (S2Drain take) s r <->
+        exists p : list K, Permutation p s /\ r = R2Drained (firstn take p)) /\
+    (forall o : @sop K Q, fnext2 ck cq n (S2Base o) s = snd (fstep ck cq n o s)) /\
+    (forall take : nat, fnext2 ck cq n (@S2Drain K Q take) s = []).
+Proof. exact (@fstep2_unfold). Qed.
+Print Assumptions C07_fstep2_unfold.
+
+Theorem C07_sstep2_refines :
+  forall (K Q T : Type) (E : env K unit Q T) (debug : bool) (ck : K -> N) (cq : Q -> N),
+    Lawful E ck cq ->
+    forall (n : nat) (o : @sop2 K Q) (w : world K unit T) (s : @fset K),
+      SAbs ck (self w) s ->
+      cap (self w) = n ->
+      match sstep2 E debug o w with
+      | Ok r w' =>
+          fstep2 ck cq n o s r /\ SAbs ck (self w') (fnext2 ck cq n o s) /\ cap (self w') = n
+      | Panic w' =>
+          fstep2 ck cq n o s (R2Base SPanic) /\
+          SAbs ck (self w') (fnext2 ck cq n o s) /\ cap (self w') = n
+      | UB => False
+      end.
+Proof. exact (@sstep2_refines). Qed.
+Print Assumptions C07_sstep2_refines.
+
+Theorem C07_srun2_refines :
+  forall (K Q T : Type) (E : env K unit Q T) (debug : bool) (ck : K -> N) (cq : Q -> N),
+    Lawful E ck cq ->
+    forall (n : nat) (ops : list (@sop2 K Q)) (w : world K unit T) (s : @fset K),
+      SAbs ck (self w) s ->
+      cap (self w) = n ->
+      exists wf : world K unit T,
+        smfinal2 E debug ops w = Some wf /\
+        fsruns2 ck cq n ops s (smrun2 E debug ops w) /\
+        SAbs ck (self wf) (fsfinal2 ck cq n ops s) /\
+        cap (self wf) = n.
+Proof. exact (@srun2_refines). Qed.
+Print Assumptions C07_srun2_refines.
+
+Theorem C07_srun2_refines_new :
+  forall (K Q T : Type) (E : env K unit Q T) (debug : bool) (ck : K -> N) (cq : Q -> N),
+    Lawful E ck cq ->
+    forall (n : nat) (ops : list (@sop2 K Q)) (t : T) (lg : list event),
+      let w0 := {| cb := t; log := lg; self := new_map n |} in
+      exists wf : world K unit T,
+        smfinal2 E debug ops w0 = Some wf /\
+        fsruns2 ck cq n ops [] (smrun2 E debug ops w0) /\
+        SAbs ck (self wf) (fsfinal2 ck cq n ops []) /\
+        cap (self wf) = n.
+Proof. exact (@srun2_refines_new). Qed.
+Print Assumptions C07_srun2_refines_new.
+
+Theorem C07_fsfinal2_base :
+  forall (K Q : Type) (ck : K -> N) (cq : Q -> N) (n : nat) (ops : list (@sop K Q)) (s : @fset K),
+    fsfinal2 ck cq n (List.map S2Base ops) s = fsfinal ck cq n ops s.
+Proof. exact (@fsfinal2_base). Qed.
+Print Assumptions C07_fsfinal2_base.
+
+Theorem C07_fsruns2_base :
+  forall (K Q : Type) (ck : K -> N) (cq : Q -> N) (n : nat) (ops : list (@sop K Q)) (s : @fset K)
+         (rs : list (@sres2 K)),
+    fsruns2 ck cq n (List.map S2Base ops) s rs -> rs = List.map R2Base (fsrun ck cq n ops s).
+Proof. exact (@fsruns2_base). Qed.
+Print Assumptions C07_fsruns2_base.
+
+(* -------------------------------------------------------------------------- *)
+(* the trace-level membership theorem                                          *)
+
+Theorem C07_stores_unfold :
+  forall (K Q : Type) (ck : K -> N) (cq : Q -> N) (n : nat) (s : @fset K) (k : K),
+    (forall k' : K, stores ck cq n (SoInsert k') s k <->
+                    k' = k /\ fst (fstep ck cq n (SoInsert k') s) = SBool true) /\
+    (forall k' : K, stores ck cq n (SoReplace k') s k <->
+                    k' = k /\ fst (fstep ck cq n (SoReplace k') s) <> SPanic) /\
+    (forall items : list K,
+        stores ck cq n (SoExtend items) s k <->
+        exists pre post : list K,
+          items = pre ++ k :: post /\
+          fst (f_extend ck n pre s) = SUnit /\
+          fst (f_insert ck n k (snd (f_extend ck n pre s))) = SBool true) /\
+    (forall q : Q, ~ stores ck cq n (SoContains q) s k) /\
+    (forall q : Q, ~ stores ck cq n (SoGet q) s k) /\
+    (forall q : Q, ~ stores ck cq n (SoRemove q) s k) /\
+    (forall q : Q, ~ stores ck cq n (SoTake q) s k) /\
+    (forall g : K -> bool, ~ stores ck cq n (SoRetain g) s k) /\
+    ~ stores ck cq n SoClear s k.
+Proof. exact (@stores_unfold). Qed.
+Print Assumptions C07_stores_unfold.
+
+Theorem C07_removes_unfold :
+  forall (K Q : Type) (ck : K -> N) (cq : Q -> N) (n : nat) (s : @fset K) (c : N),
+    (forall k' : K, removes ck cq n (SoReplace k') s c <->
+                    ck k' = c /\ fst (fstep ck cq n (SoReplace k') s) <> SPanic) /\
+    (forall q : Q, removes ck cq n (SoRemove q) s c <-> cq q = c) /\
+    (forall q : Q, removes ck cq n (SoTake q) s c <-> cq q = c) /\
+    (forall g : K -> bool,
+        removes ck cq n (SoRetain g) s c <-> exists k0 : K, f_mem ck s c = Some k0 /\ g k0 = false) /\
+    (removes ck cq n SoClear s c <-> True) /\
+    (forall k' : K, ~ removes ck cq n (SoInsert k') s c) /\
+    (forall items : list K, ~ removes ck cq n (SoExtend items) s c) /\
+    (forall q : Q, ~ removes ck cq n (SoContains q) s c) /\
+    (forall q : Q, ~ removes ck cq n (SoGet q) s c).
+Proof. exact (@removes_unfold). Qed.
+Print Assumptions C07_removes_unfold.
+
+Theorem C07_stores2_removes2_unfold :
+  forall (K Q : Type) (ck : K -> N) (cq : Q -> N) (n : nat) (s : @fset K) (k : K) (c : N),
+    (forall o : @sop K Q, stores2 ck cq n (S2Base o) s k <-> stores ck cq n o s k) /\
+    (forall take : nat, ~ stores2 ck cq n (S2Drain take) s k) /\
+    (forall o : @sop K Q, removes2 ck cq n (S2Base o) s c <-> removes ck cq n o s c) /\
+    (forall take : nat, removes2 ck cq n (S2Drain take) s c <-> True).
+Proof. exact (@stores2_removes2_unfold). Qed.
+Print Assumptions C07_stores2_removes2_unfold.
+
+Theorem C07_noremove_unfold :
+  forall (K Q : Type) (ck : K -> N) (cq : Q -> N) (n : nat) (c : N) (s : @fset K),
+    (noremove ck cq n c [] s <-> True) /\
+    (forall (o : @sop2 K Q) (t : list (@sop2 K Q)),
+        noremove ck cq n c (o :: t) s <->
+        ~ removes2 ck cq n o s c /\ noremove ck cq n c t (fnext2 ck cq n o s)).
+Proof. exact (@noremove_unfold). Qed.
+Print Assumptions C07_noremove_unfold.
+
+Theorem C07_fsfinal2_fnd :
+  forall (K Q : Type) (ck : K -> N) (cq : Q -> N) (n : nat) (ops : list (@sop2 K Q)) (s : @fset K),
+    NoDup (List.map ck s) -> NoDup (List.map ck (fsfinal2 ck cq n ops s)).
+Proof. exact (@fsfinal2_fnd). Qed.
+Print Assumptions C07_fsfinal2_fnd.
+
+Theorem C07_fstep_mem :
+  forall (K Q : Type) (ck : K -> N) (cq : Q -> N) (n : nat) (o : @sop K Q) (s : @fset K) (c : N) (k : K),
+    NoDup (List.map ck s) ->
+    (f_mem ck (snd (fstep ck cq n o s)) c = Some k <->
+     stores ck cq n o s k /\ ck k = c \/ f_mem ck s c = Some k /\ ~ removes ck cq n o s c).
+Proof. exact (@fstep_mem). Qed.
+Print Assumptions C07_fstep_mem.
+
+Theorem C07_fsfinal2_mem :
+  forall (K Q : Type) (ck : K -> N) (cq : Q -> N) (n : nat) (ops : list (@sop2 K Q)) (s : @fset K)
+         (c : N) (k : K),
+    NoDup (List.map ck s) ->
+    (f_mem ck (fsfinal2 ck cq n ops s) c = Some k <->
+     f_mem ck s c = Some k /\ noremove ck cq n c ops s \/
+     (exists (pre : list (@sop2 K Q)) (o : @sop2 K Q) (post : list (@sop2 K Q)),
+         ops = pre ++ o :: post /\
+         stores2 ck cq n o (fsfinal2 ck cq n pre s) k /\
+         ck k = c /\
+         noremove ck cq n c post (fnext2 ck cq n o (fsfinal2 ck cq n pre s)))).
+Proof. exact (@fsfinal2_mem). Qed.
+Print Assumptions C07_fsfinal2_mem.
+
+Theorem C07_fsfinal2_mem_new :
+  forall (K Q : Type) (ck : K -> N) (cq : Q -> N) (n : nat) (ops : list (@sop2 K Q)) (c : N) (k : K),
+    f_mem ck (fsfinal2 ck cq n ops []) c = Some k <->
+    (exists (pre : list (@sop2 K Q)) (o : @sop2 K Q) (post : list (@sop2 K Q)),
+        ops = pre ++ o :: post /\
+        stores2 ck cq n o (fsfinal2 ck cq n pre []) k /\
+        ck k = c /\
+        noremove ck cq n c post (fnext2 ck cq n o (fsfinal2 ck cq n pre []))).
+Proof. exact (@fsfinal2_mem_new). Qed.
+Print Assumptions C07_fsfinal2_mem_new.
+
+Theorem C07_fsfinal2_member_new :
+  forall (K Q : Type) (ck : K -> N) (cq : Q -> N) (n : nat) (ops : list (@sop2 K Q)) (c : N),
+    f_mem ck (fsfinal2 ck cq n ops []) c <> None <->
+    (exists (k : K) (pre : list (@sop2 K Q)) (o : @sop2 K Q) (post : list (@sop2 K Q)),
+        ops = pre ++ o :: post /\
+        stores2 ck cq n o (fsfinal2 ck cq n pre []) k /\
+        ck k = c /\
+        noremove ck cq n c post (fnext2 ck cq n o (fsfinal2 ck cq n pre []))).
+Proof. exact (@fsfinal2_member_new). Qed.
+Print Assumptions C07_fsfinal2_member_new.
+
+Theorem C07_srun2_membership :
+  forall (K Q T : Type) (E : env K unit Q T) (debug : bool) (ck : K -> N) (cq : Q -> N),
+    Lawful E ck cq ->
+    forall (n : nat) (ops : list (@sop2 K Q)) (t : T) (lg : list event),
+      exists wf : world K unit T,
+        smfinal2 E debug ops {| cb := t; log := lg; self := new_map n |} = Some wf /\
+        cap (self wf) = n /\
+        (forall (c : N) (k : K),
+            option_map fst (lookup ck (Spec.elems (self wf)) c) = Some k <->
+            (exists (pre : list (@sop2 K Q)) (o : @sop2 K Q) (post : list (@sop2 K Q)),
+                ops = pre ++ o :: post /\
+                stores2 ck cq n o (fsfinal2 ck cq n pre []) k /\
+                ck k = c /\
+                noremove ck cq n c post (fnext2 ck cq n o (fsfinal2 ck cq n pre [])))).
+Proof. exact (@srun2_membership). Qed.
+Print Assumptions C07_srun2_membership.
+
+Theorem C07_srun2_membership_from :
+  forall (K Q T : Type) (E : env K unit Q T) (debug : bool) (ck : K -> N) (cq : Q -> N),
+    Lawful E ck cq ->
+    forall (n : nat) (ops : list (@sop2 K Q)) (w : world K unit T) (s : @fset K),
+      SAbs ck (self w) s ->
+      cap (self w) = n ->
+      exists wf : world K unit T,
+        smfinal2 E debug ops w = Some wf /\
+        cap (self wf) = n /\
+        (forall (c : N) (k : K),
+            option_map fst (lookup ck (Spec.elems (self wf)) c) = Some k <->
+            f_mem ck s c = Some k /\ noremove ck cq n c ops s \/
+            (exists (pre : list (@sop2 K Q)) (o : @sop2 K Q) (post : list (@sop2 K Q)),
+                ops = pre ++ o :: post /\
+                stores2 ck cq n o (fsfinal2 ck cq n pre s) k /\
+                ck k = c /\
+                noremove ck cq n c post (fnext2 ck cq n o (fsfinal2 ck cq n pre s)))).
+Proof. exact (@srun2_membership_from). Qed.
+Print Assumptions C07_srun2_membership_from.
+
+(* -------------------------------------------------------------------------- *)
+(* Non-vacuity: a history on Set::new() of capacity 3 with drain in the middle: three inserts,
+   drain taking 2 of the 3 elements (the model yields them in slot order; the third is dropped
+   with the Drain), insert into the now empty set, extend, drain taking more than there is,
+   insert, replace of the same class, remove of another class *)
+Definition C07_ops2 : list (@sop2 key query) :=
+  [S2Base (SoInsert (k_ 1 5)); S2Base (SoInsert (k_ 2 6)); S2Base (SoInsert (k_ 3 7)); S2Drain 2;
+   S2Base (SoInsert (k_ 4 5)); S2Base (SoExtend [k_ 5 6; k_ 6 5]); S2Base (SoContains (QCls 7));
+   S2Drain 9; S2Base (SoInsert (k_ 7 8)); S2Base (SoReplace (k_ 8 8)); S2Base (SoRemove (QCls 4))].
+
+Example C07_example_run2_model :
+  smrun2 (env_set C07_sc0) false C07_ops2 {| cb := cs0; log := []; self := new_map 3 |} =
+  [R2Base (SBool true); R2Base (SBool true); R2Base (SBool true); R2Drained [k_ 1 5; k_ 2 6];
+   R2Base (SBool true); R2Base SUnit; R2Base (SBool false); R2Drained [k_ 4 5; k_ 5 6];
+   R2Base (SBool true); R2Base (SElem (k_ 7 8)); R2Base (SBool false)].
+Proof. vm_compute. reflexivity. Qed.
+
+(* ... and the ideal set allows exactly these results (drain: the identity permutation) *)
+Example C07_example_run2_ideal :
+  fsruns2 kcls qcls 3 C07_ops2 []
+    [R2Base (SBool true); R2Base (SBool true); R2Base (SBool true); R2Drained [k_ 1 5; k_ 2 6];
+     R2Base (SBool true); R2Base SUnit; R2Base (SBool false); R2Drained [k_ 4 5; k_ 5 6];
+     R2Base (SBool true); R2Base (SElem (k_ 7 8)); R2Base (SBool false)] /\
+  fsfinal2 kcls qcls 3 C07_ops2 [] = [k_ 8 8].
+Proof.
+  split; [|vm_compute; reflexivity].
+  repeat (apply fsruns2_cons;
+          [first [ vm_compute; reflexivity
+                 | eexists; split; [apply Permutation_refl | vm_compute; reflexivity] ] |]).
+  apply fsruns2_nil.
+Qed.
+
+(* the trace condition on that history: the member of class 8 at the end is K8 because the
+   replace (10th operation) stored it and the remove after it has another class; K7 (stored by
+   the 9th operation) is not, because the replace displaced it *)
+Example C07_example_membership :
+  (exists pre o post, C07_ops2 = pre ++ o :: post /\
+      stores2 kcls qcls 3 o (fsfinal2 kcls qcls 3 pre []) (k_ 8 8) /\
+      kcls (k_ 8 8) = 8%N /\
+      noremove kcls qcls 3 8%N post (fnext2 kcls qcls 3 o (fsfinal2 kcls qcls 3 pre []))) /\
+  f_mem kcls (fsfinal2 kcls qcls 3 C07_ops2 []) 8%N = Some (k_ 8 8) /\
+  f_mem kcls (fsfinal2 kcls qcls 3 C07_ops2 []) 5%N = None.
+Proof.
+  split; [|split; vm_compute; reflexivity].
+  exists (firstn 9 C07_ops2), (S2Base (SoReplace (k_ 8 8))), [S2Base (SoRemove (QCls 4))].
+  split; [reflexivity|]. split; [split; [reflexivity | vm_compute; discriminate]|].
+  split; [reflexivity|]. split; [vm_compute; discriminate | exact I].
+Qed.
